@@ -253,6 +253,55 @@ def mergedTails (m : Mode) (parts : List APart) : List Elem :=
 `s` is the part structure of the loaded score (`Score.parts` is `list(iter_parts(structure))`) -/
 def loadScoreAsPart (s : Shape) : Option Result := mergeParts .voice (iterParts s)
 
+-- ---------------------------------------------------------------- Score objects and their history
+
+/-- a `Score` object: `part_structure` (the parts and groups it was built from; nothing updates it afterwards) and
+`parts`, the flat list of parts the caller sees (`score.parts`, `score[i]`, `len(score)`, iteration, `note_array()`)
+and may replace -/
+structure AScore where
+  partStructure : List Tree
+  parts : List APart
+
+/-- `Score(x)`: `parts = list(iter_parts(x))`; `part_structure = [x]` for one part or group, `list(x)` otherwise -/
+def mkScore : Shape → AScore
+  | .one t => { partStructure := [t], parts := flattenTree t }
+  | .many ts => { partStructure := ts, parts := flattenList ts }
+
+/-- what a caller may do to the parts of a score after its construction -/
+inductive ScoreOp where
+  | setItem (i : Nat) (p : APart)    -- `score[i] = p`
+  | assign (ps : List APart)         -- `score.parts = ps`; also what `unfold_part_maximal` / `unfold_part_minimal`
+                                     -- do to the copy of the score they return
+  | append (p : APart)               -- `score.parts.append(p)`
+  | pop (i : Nat)                    -- `score.parts.pop(i)`
+  | reverse                          -- `score.parts.reverse()`
+
+/-- one step of the history (`none`: IndexError) -/
+def ScoreOp.run (sc : AScore) : ScoreOp → Option AScore
+  | .setItem i p => if i < sc.parts.length then some { sc with parts := sc.parts.set i p } else none
+  | .assign ps => some { sc with parts := ps }
+  | .append p => some { sc with parts := sc.parts ++ [p] }
+  | .pop i => if i < sc.parts.length then some { sc with parts := sc.parts.eraseIdx i } else none
+  | .reverse => some { sc with parts := sc.parts.reverse }
+
+def runOps (sc : AScore) : List ScoreOp → Option AScore
+  | [] => some sc
+  | o :: os => (o.run sc).bind fun sc' => runOps sc' os
+
+/-- the argument of `merge_parts` -/
+inductive Arg where
+  | plain (s : Shape)                        -- a part, a group, a list or tuple of parts and groups
+  | score (s : Shape) (ops : List ScoreOp)   -- the object `Score(s)` after the history `ops`
+
+/-- the parts `merge_parts` merges: `list(iter_parts(x))`, and for a Score its `.parts` as they are at the time of
+the call (`none`: the history itself raised) -/
+def argParts : Arg → Option (List APart)
+  | .plain s => some (iterParts s)
+  | .score s ops => (runOps (mkScore s) ops).map (·.parts)
+
+/-- `merge_parts(arg, reassign)` -/
+def mergeArg (m : Mode) (a : Arg) : Option Result := (argParts a).bind (mergeParts m)
+
 /-- the divisions value the model sees for a part with `_quarter_durations == qds`: the single entry, and 0 (which
 `mergeParts` rejects, as the code raises "Merging parts with multiple divisions is not supported") otherwise -/
 def divsOf : List Nat → Nat
